@@ -116,4 +116,25 @@ geometry sections lie where the (unchanged) offsets the reader does use point. -
 def encodeMdlR (m : AbstractModel) (ρ : Redundant) : Bytes :=
   encFileHeader (ρ.fh (fileHeader m)) ++ (encModelData m.version (ρ.md (modelData m)) ++ sections m)
 
+/-! ### what the writer does with the copies (C07)
+
+`MDL::write_to_buffer` echoes every stored copy (it writes `file_header` and `model_data` as they are
+in memory) and places vertex / index data by the copies the reader uses.  The only unread copies it
+*looks at* are `FileHeader.vertexOffsets`, `vertexBufferSize`, `indexBufferSize`: after the geometry
+it zero-extends the buffer to the largest `offset + size` the file header declares (64-bit sum). -/
+
+/-- the largest section end the file header declares: `max (offset[i] + size[i])` over the three
+vertex and three index slots, in unbounded arithmetic (the code sums in `u64`) -/
+def declaredEnd (h : FileHeader) : Nat :=
+  (List.zipWith (fun (o s : UInt32) => o.toNat + s.toNat)
+    (h.vertexOffsets.toList ++ h.indexOffsets.toList)
+    (h.vertexBufferSize.toList ++ h.indexBufferSize.toList)).foldl max 0
+
+/-- some section end declared by the (replaced) file header reaches the end of the file.  Holds for
+every `ρ` whenever the third LOD has no meshes (its index offset — a copy the reader uses, kept by
+`ρ` — is then the file length); with three LODs in use it asks that the replaced sizes still cover
+the index padding behind the last mesh. -/
+def Redundant.keepsTail (ρ : Redundant) (m : AbstractModel) : Bool :=
+  decide ((encodeMdl m).length ≤ declaredEnd (ρ.fh (fileHeader m)))
+
 end Physis.Spec.Mdl
